@@ -34,6 +34,8 @@ REPO = os.environ.get("MCHAP_REPO", "/repo")
 
 
 def anchors():
+    if os.environ.get("MUT_TARGETS"):            # {"Cxx": {"mchap/...py": ["function", ...]}}: other functions than the anchored ones
+        return {p: {f: set(n) for f, n in d.items()} for p, d in json.load(open(os.environ["MUT_TARGETS"])).items()}
     out = {}
     for line in open(os.path.join(VERIF, "properties.jsonl")):
         d = json.loads(line)
